@@ -71,6 +71,12 @@ def check_case(res, spec, grid, radius, rng, exprs, label):
     ncell, nbe = len(fr.cells), len(fr.big_edges)
     p1, p2 = rng.normal(0, 1, ncell), rng.normal(0, 2, ncell)
     t1, t2 = rng.normal(1, 1, nbe), rng.uniform(-1, 3, nbe)
+    # "including zero": some cells and interfaces carry exactly 0.0 in one of the two states (a gauge cell, a slack interface)
+    if ncell >= 3:
+        p1[rng.choice(ncell, size=max(1, ncell // 4), replace=False)] = 0.0
+        p2[int(rng.integers(0, ncell))] = 0.0
+    if nbe >= 3:
+        t1[rng.choice(nbe, size=max(1, nbe // 5), replace=False)] = 0.0
     t1[rng.integers(0, nbe)] = 0.0
     a, b = 0.7, -1.9
     vectors = []
